@@ -57,12 +57,20 @@ const (
 type sim struct {
 	blobs map[int]bool
 	tags  map[int]int // ref -> blob
+	// AutoSaveIndex off: what a reader of the directory is entitled to see is the
+	// tag map of the last SaveIndex, not the one in memory
+	noAuto bool
+	saved  map[int]int
 }
 
-func newSim() *sim { return &sim{blobs: map[int]bool{}, tags: map[int]int{}} }
+func newSim() *sim { return &sim{blobs: map[int]bool{}, tags: map[int]int{}, saved: map[int]int{}} }
 
 func (s *sim) clone() *sim {
 	c := newSim()
+	c.noAuto = s.noAuto
+	for k, v := range s.saved {
+		c.saved[k] = v
+	}
 	for k, v := range s.blobs {
 		c.blobs[k] = v
 	}
@@ -73,6 +81,16 @@ func (s *sim) clone() *sim {
 }
 
 func (s *sim) apply(o ck.Op) {
+	s.applyMem(o)
+	if !s.noAuto || o.Kind == "saveindex" {
+		s.saved = map[int]int{}
+		for k, v := range s.tags {
+			s.saved[k] = v
+		}
+	}
+}
+
+func (s *sim) applyMem(o ck.Op) {
 	switch o.Kind {
 	case "push":
 		s.blobs[o.Blob] = true
@@ -96,7 +114,7 @@ func (s *sim) apply(o ck.Op) {
 
 func (s *sim) tagString(sc *ck.Script) string {
 	var xs []string
-	for r, b := range s.tags {
+	for r, b := range s.saved {
 		xs = append(xs, ck.RefName(r)+"="+sc.Blob(b).Digest())
 	}
 	sort.Strings(xs)
@@ -450,6 +468,17 @@ func realize(r *common.Rand, kind string, s *sim, hist *[]ck.Op) ck.Op {
 			do(ck.Op{Kind: "tag", Blob: man, Ref: 6})
 		}
 		return ck.Op{Kind: "tag", Blob: man, Ref: 6, Variant: true}
+	case "saveindex-after-delete":
+		ensure(man, true)
+		do(ck.Op{Kind: "tag", Blob: man, Ref: 1})
+		do(ck.Op{Kind: "saveindex"})
+		do(ck.Op{Kind: "delete", Blob: man})
+		return ck.Op{Kind: "saveindex"}
+	case "delete-saved-tagged":
+		ensure(man, true)
+		do(ck.Op{Kind: "tag", Blob: man, Ref: 1})
+		do(ck.Op{Kind: "saveindex"})
+		return ck.Op{Kind: "delete", Blob: man}
 	case "delete-sha512":
 		ensure(1002, true)
 		do(ck.Op{Kind: "tag", Blob: 1002, Ref: 5})
@@ -564,7 +593,11 @@ func modelScript(sc *ck.Script, sizes map[int][]int64, hist []string, final stri
 		hs = append(hs, fmt.Sprintf("crash:%d:%s", seg.J, seg.FinalEnc))
 	}
 	hs = append(hs, hist...)
-	return "blobs=" + strings.Join(bl, ",") + ";hist=" + strings.Join(hs, ",") + ";final=" + final
+	auto := ""
+	if sc.NoAutoSave {
+		auto = "autosave=0;"
+	}
+	return auto + "blobs=" + strings.Join(bl, ",") + ";hist=" + strings.Join(hs, ",") + ";final=" + final
 }
 
 var readOnlyCalls = map[string]bool{"fcntl": true, "newfstatat": true, "fstat": true, "statx": true, "read": true,
@@ -646,7 +679,7 @@ func (p *prepared) mergeSizes(m map[int][]int64) {
 }
 
 func writeScript(dir string, full *ck.Script, hist []ck.Op, final ck.Op) string {
-	sc := ck.Script{AutoGC: full.AutoGC, Blobs: full.Blobs, History: hist, Final: final}
+	sc := ck.Script{AutoGC: full.AutoGC, NoAutoSave: full.NoAutoSave, Blobs: full.Blobs, History: hist, Final: final}
 	f, err := os.CreateTemp(dir, "script*.json")
 	if err != nil {
 		panic(err)
@@ -676,6 +709,7 @@ func observed(root string, sc *ck.Script) *sim {
 				if v, err := strconv.Atoi(r[1:]); err == nil {
 					if id, ok := byHex[m.Digest[strings.IndexByte(m.Digest, ':')+1:]]; ok {
 						s.tags[v] = id
+						s.saved[v] = id
 					}
 				}
 			}
@@ -718,7 +752,7 @@ func (p *prepared) truth(sc *ck.Script, hist []ck.Op, final ck.Op, scriptPath st
 // (model comparison + oracle) of the script truncated at this segment.
 func execSegment(sc *ck.Script, i int, p *prepared) bool {
 	seg := &sc.Pre[i]
-	trunc := &ck.Script{AutoGC: sc.AutoGC, Blobs: sc.Blobs, Pre: sc.Pre[:i], History: seg.History, Final: seg.Final}
+	trunc := &ck.Script{AutoGC: sc.AutoGC, NoAutoSave: sc.NoAutoSave, Blobs: sc.Blobs, Pre: sc.Pre[:i], History: seg.History, Final: seg.Final}
 	scriptPath := writeScript(p.dir, sc, seg.History, seg.Final)
 	rec := p.fresh("prerec")
 	tr, err := ck.Run(exe, rec, scriptPath, filepath.Dir(rec), nil)
@@ -924,6 +958,7 @@ func runMain(sc *ck.Script, p *prepared, onlyK int, allK bool) {
 func runScript(sc *ck.Script, onlyK int, allK bool) {
 	p := newPrepared()
 	defer p.close()
+	p.sim.noAuto = sc.NoAutoSave
 	for i := range sc.Pre {
 		if !execSegment(sc, i, p) {
 			return
@@ -1016,7 +1051,13 @@ func oracle(root string, sc *ck.Script, before, after *sim) []failure {
 		for _, m := range idx.Manifests {
 			fi, err := os.Stat(ck.BlobPath(root, m.Digest))
 			if err != nil {
-				add("index-dangling", "index.json entry %s names a missing blob", m.Digest)
+				sig := "index-dangling"
+				if id, ok := byHex[m.Digest[strings.IndexByte(m.Digest, ':')+1:]]; ok && sc.NoAutoSave && len(sc.Pre) == 0 && deletedAfterLastSave(sc, id) {
+					// AutoSaveIndex off: Delete unlinked a blob that the last saved index.json names
+					// (known finding; only this mechanism gets the signature)
+					sig = "autosave-off-index-dangling"
+				}
+				add(sig, "index.json entry %s names a missing blob", m.Digest)
 			} else if fi.Size() != m.Size {
 				add("index-dangling", "index.json entry %s has size %d, the blob %d", m.Digest, m.Size, fi.Size())
 			}
@@ -1060,6 +1101,24 @@ func oracle(root string, sc *ck.Script, before, after *sim) []failure {
 	return fails
 }
 
+// deletedAfterLastSave: was blob id deleted by an operation of the script that came
+// after the last COMPLETED SaveIndex?
+func deletedAfterLastSave(sc *ck.Script, id int) bool {
+	last := -1
+	for i, o := range sc.History {
+		if o.Kind == "saveindex" {
+			last = i
+		}
+	}
+	ops := append(append([]ck.Op{}, sc.History...), sc.Final)
+	for i, o := range ops {
+		if i > last && o.Kind == "delete" && o.Blob == id {
+			return true
+		}
+	}
+	return false
+}
+
 // ---------- main ----------
 
 func genHistory(r *common.Rand, sc *ck.Script, s *sim, n int) []ck.Op {
@@ -1087,6 +1146,7 @@ func runGeneratedIn(r *common.Rand, sc *ck.Script, histLen int, kind string, all
 	}
 	p := newPrepared()
 	defer p.close()
+	p.sim.noAuto = sc.NoAutoSave
 	for i := 0; i < crashes; i++ {
 		s := p.sim.clone()
 		seg := ck.Segment{History: genHistory(r, sc, s, r.Intn(4))}
@@ -1175,6 +1235,15 @@ func main() {
 			runGenerated(r, histLen, kind, big, run.Thorough(), crashes)
 		}
 	}
+	// AutoSaveIndex off: only SaveIndex writes index.json
+	for h := 0; h < run.Scale(1, 8); h++ {
+		for _, kind := range []string{"push-manifest", "tag-new", "tag-move", "untag", "delete-tagged", "delete-digest-only",
+			"delete-raw", "saveindex", "saveindex-after-delete", "delete-saved-tagged"} {
+			sc := &ck.Script{Blobs: universe(r, false), NoAutoSave: true}
+			run.Count("autosave-off-scripts")
+			runGeneratedIn(r, sc, r.Intn(6), kind, run.Thorough(), 0)
+		}
+	}
 	// the initialisation itself, killed at every system call
 	func() {
 		p := newPrepared()
@@ -1211,6 +1280,7 @@ func checkFloors() {
 	need("earlier-crashes", run.Scale(15, 150))
 	need("final:gc", run.Scale(4, 30))
 	need("final:init", 1)
+	need("autosave-off-scripts", run.Scale(8, 60))
 	need("final:reopen", run.Scale(3, 20))
 	need("composite-finals-with-cascade", run.Scale(2, 30))
 	need("multi-write-push-kills", run.Scale(10, 100))
